@@ -107,7 +107,9 @@ def build_b(d):
         new = old + dt.timedelta(days=d.choice([0, 1, 1, 6, 7, 30, 31, 92, 365, 366, -1, -1, -7, -31, -366]))
     else:
         new = dt.date.fromordinal(d.int(lo, hi))
-    new = min(max(new, dt.date(2001, 1, 8)), dt.date(2099, 12, 20))
+    if d.chance(1, 6):
+        new = dt.date(old.year, 1, d.int(1, 7))  # week 0 / ISO week of the previous year, earlier than the current version
+    new = min(max(new, dt.date(2001, 1, 1)), dt.date(2099, 12, 20))
     state = grammar.state_from(old, inc0=d.choice([0, 1, 9]), inc1=d.choice([1, 2, 10]), patch=d.choice([0, 3]),
                                bid=d.choice(["1001", "1999", "0100"]), tag=d.choice(["final", "beta"]))
     return {"ast": nodes, "state": state, "old": ref_render(nodes, state), "date": new.isoformat(),
